@@ -50,7 +50,7 @@ def CState.ofCode : Nat → Option CState
 structure Slots (α : Type) where
   rows : List (Option α)
   blank : List Nat
-  deriving Repr
+  deriving Repr, DecidableEq
 
 namespace Slots
 variable {α : Type}
@@ -158,7 +158,7 @@ structure Cav where
   split1 : Int
   collapse0 : Int
   collapse1 : Int
-  deriving Repr
+  deriving Repr, DecidableEq
 
 /-- `ref_cavity_create` -/
 def Cav.create : Cav :=
